@@ -86,6 +86,8 @@ pub struct Obs {
     pub executed: Option<Vec<u32>>,
     /// source spans of the executed statements (when recorded)
     pub executed_spans: Vec<(usize, usize)>,
+    /// spans of all function definition statements (filled together with executed_spans)
+    pub funcdef_spans: Vec<(usize, usize)>,
     pub removable_functions: usize,
     pub plan_some: bool,
     pub removable_stmts: Vec<u32>,
@@ -230,6 +232,7 @@ pub fn run_pipeline(ctx: &Ctx, src: &str, mode: Mode, opts: RunOpts) -> Obs {
         trace: RuntimeTrace::default(),
         executed: None,
         executed_spans: vec![],
+        funcdef_spans: vec![],
         removable_functions: 0,
         plan_some: false,
         removable_stmts: vec![],
@@ -272,6 +275,13 @@ pub fn run_pipeline(ctx: &Ctx, src: &str, mode: Mode, opts: RunOpts) -> Obs {
             for id in ids {
                 if let Some(e) = resolver.facts.stmt_effects.get(id as usize) {
                     obs.executed_spans.push(stmt_span(e.stmt));
+                }
+            }
+        }
+        if executed.is_some() {
+            for e in resolver.facts.stmt_effects.iter() {
+                if matches!(e.stmt, naijascript::syntax::parser::Stmt::FunctionDef { .. }) {
+                    obs.funcdef_spans.push(stmt_span(e.stmt));
                 }
             }
         }
